@@ -31,11 +31,7 @@ Theorem C08_per_connection_sequential :
     Forall (complete P) hcs /\
     view P c T = TAccept c :: flat_map (chunk P c) hcs /\
     writes P c T = flat_map (resp_writes P) hcs.
-Proof.
-  intros P Hs c fs H1 H2 H3 E s0 s T H4 H5 H6 H7 H8.
-  destruct (connection_view_quiescent P Hs c fs H1 H2 H3 E s0 s T H4 H5 H6 H7 H8) as (hcs & Ha & Hb & Hc).
-  exists hcs. repeat split; auto. now apply writes_of_view.
-Qed.
+Proof. exact per_connection_sequential. Qed.
 Print Assumptions C08_per_connection_sequential.
 
 (* At any moment of any run (no quiescence needed): the calls handled for c so far are a prefix of
